@@ -24,3 +24,37 @@ typedef momo::stdish::set<int, std::less<int>, C14A<int>> C14S;
 typedef momo::stdish::vector<int, C14A<int>> C14V;
 template<typename W> void c14_use(W& a, W& b) { a = b; a = std::move(b); a.swap(b); W c(std::move(a), a.get_allocator()); }
 void c14_all(C14UM& a, C14US& b, C14UMM& c, C14M& d, C14S& e, C14V& f) { c14_use(a, a); c14_use(b, b); c14_use(c, c); c14_use(d, d); c14_use(e, e); c14_use(f, f); }
+
+// ---- MemManagerStd<Alloc>::operator=(MemManagerStd&&): which pvAssign overload is chosen, for all 16 combinations of
+// (POCCA, POCMA, POCS, nothrow-move-assignable byte allocator)
+#include "momo/MemManager.h"
+template<typename T, bool CA, bool MA, bool SW, bool NMA> struct C14B
+{
+	typedef T value_type;
+	typedef std::integral_constant<bool, CA> propagate_on_container_copy_assignment;
+	typedef std::integral_constant<bool, MA> propagate_on_container_move_assignment;
+	typedef std::integral_constant<bool, SW> propagate_on_container_swap;
+	template<typename U> struct rebind { typedef C14B<U, CA, MA, SW, NMA> other; };
+	int id;
+	explicit C14B(int i = 0) noexcept : id(i) {}
+	C14B(const C14B&) noexcept = default;
+	C14B(C14B&&) noexcept = default;
+	template<typename U> C14B(const C14B<U, CA, MA, SW, NMA>& a) noexcept : id(a.id) {}
+	C14B& operator=(const C14B& a) noexcept(NMA) { id = a.id; return *this; }
+	C14B& operator=(C14B&& a) noexcept(NMA) { id = a.id; return *this; }
+	T* allocate(size_t n) { return static_cast<T*>(::operator new(n * sizeof(T))); }
+	void deallocate(T* p, size_t) noexcept { ::operator delete(p); }
+	friend bool operator==(const C14B& a, const C14B& b) noexcept { return a.id == b.id; }
+	friend bool operator!=(const C14B& a, const C14B& b) noexcept { return a.id != b.id; }
+};
+template<bool CA, bool MA, bool SW, bool NMA> void c14_mms()
+{
+	typedef momo::MemManagerStd<C14B<int, CA, MA, SW, NMA>> M;
+	if constexpr (std::is_nothrow_move_assignable<M>::value) { M a(C14B<int, CA, MA, SW, NMA>(1)), b(C14B<int, CA, MA, SW, NMA>(2)); a = std::move(b); }
+}
+void c14_mms_all()
+{
+#define C14_ROW(ca, ma, sw) c14_mms<ca, ma, sw, false>(); c14_mms<ca, ma, sw, true>();
+	C14_ROW(false, false, false) C14_ROW(false, false, true) C14_ROW(false, true, false) C14_ROW(false, true, true)
+	C14_ROW(true, false, false) C14_ROW(true, false, true) C14_ROW(true, true, false) C14_ROW(true, true, true)
+}
